@@ -55,6 +55,7 @@ func init() {
 		MinCounts:   map[string]int{"FULL-LOCK": 4, "NONBLOCK": 4, "FINAL-ONCE": 3, "REDRAW-AFTER-WAKE": 1},
 		Trusted:     trustedBase,
 		Controls: []core.Control{
+			{Name: "drain-request-after-full-redraw", Rule: "REDRAW-AFTER-WAKE", File: "pkg/cli/loop.go", Old: "\t\tlp.redrawCb(flag)\n\t\tselect {\n\t\tcase event := <-lp.inputCh:", New: "\t\tlp.redrawCb(flag)\n\t\tif flag&fullRedraw != 0 {\n\t\t\tselect {\n\t\t\tcase <-lp.redrawCh:\n\t\t\tdefault:\n\t\t\t}\n\t\t}\n\t\tselect {\n\t\tcase event := <-lp.inputCh:", Fire: true, Want: "polling receive"},
 			{Name: "redrawFull-set-after-send", Rule: "FULL-LOCK", File: "pkg/cli/loop.go", Old: "\tif full {\n\t\tlp.redrawFull = true\n\t}\n\tselect {\n\tcase lp.redrawCh <- struct{}{}:\n\tdefault:\n\t}\n}", New: "\tselect {\n\tcase lp.redrawCh <- struct{}{}:\n\tdefault:\n\t}\n\tif full {\n\t\tlp.redrawFull = true\n\t}\n}", Fire: true, Want: "Redraw", Quick: true},
 			{Name: "redraw-unlocked-flag", Rule: "FULL-LOCK", File: "pkg/cli/loop.go", Old: "func (lp *loop) Redraw(full bool) {\n\tlp.redrawMutex.Lock()\n\tdefer lp.redrawMutex.Unlock()\n", New: "func (lp *loop) Redraw(full bool) {\n", Fire: true},
 			{Name: "blocking-send-in-redraw", Rule: "NONBLOCK", File: "pkg/cli/loop.go", Old: "\tselect {\n\tcase lp.redrawCh <- struct{}{}:\n\tdefault:\n\t}\n}\n\n// Input", New: "\tlp.redrawCh <- struct{}{}\n}\n\n// Input", Fire: true},
@@ -322,6 +323,52 @@ func runC32(p *core.Program, r *core.Report) {
 			r.OK("REDRAW-AFTER-WAKE", "(*cli.loop).Run wait -> redraw -> wait", p.InsPos(sel), "every cycle through the blocking select passes a redrawCb call")
 		}
 	})
+	// every consumer of a request token honours it: after ANY receive from
+	// redrawCh (blocking or polling, anywhere in the package) a redraw
+	// callback runs before the loop blocks again or returns. A poll that
+	// merely drains the channel discards a request another goroutine made.
+	for _, fn := range p.FnsInPkg(pkgCLI) {
+		core.Instrs(fn, func(ins ssa.Instruction) {
+			recvs := false
+			switch x := ins.(type) {
+			case *ssa.Select:
+				for _, st := range x.States {
+					if st.Dir == types.RecvOnly && chanField(st.Chan) == "redrawCh" {
+						recvs = true
+					}
+				}
+			case *ssa.UnOp:
+				if x.Op == token.ARROW && chanField(x.X) == "redrawCh" {
+					recvs = true
+				}
+			}
+			if !recvs {
+				return
+			}
+			kind := "blocking"
+			if sel, ok := ins.(*ssa.Select); ok && !sel.Blocking {
+				kind = "polling"
+			}
+			construct := core.FnKey(fn) + " " + kind + " receive from redrawCh is honoured by a redraw"
+			lost, _ := core.Reaches(ins, func(x ssa.Instruction) bool {
+				if x == ins {
+					return true
+				}
+				if s2, ok := x.(*ssa.Select); ok && s2.Blocking {
+					return true
+				}
+				if _, ok := x.(*ssa.Return); ok {
+					return true
+				}
+				return false
+			}, func(x ssa.Instruction) bool { return isRedrawCb(x, false) || isRedrawCb(x, true) })
+			if lost {
+				r.Bad("REDRAW-AFTER-WAKE", construct, p.InsPos(ins), "a request token taken from redrawCh can be dropped: some path from this receive reaches the next blocking wait (or a return) without calling the redraw callback, so a redraw requested by another goroutine at that moment never happens")
+			} else {
+				r.OK("REDRAW-AFTER-WAKE", construct, p.InsPos(ins), "every path from the receive passes a redrawCb call before the loop waits again or returns")
+			}
+		})
+	}
 }
 
 func runC30(p *core.Program, r *core.Report) {
